@@ -17,6 +17,9 @@ CHECKS = {
  "C07": dict(cat="proof", ref="DESIGN.md §5 C07",
    text="Coq theorems (22) over a faithful model of the FormatLines scanner, track_errors and the exit-code expressions: the reported set equals a declarative set of offending lines (scan_exact, both directions), 1-based sorted line numbers, selected-only / never-skipped, exact characterisation of the two error options, a trailing blank forces exit 1; for every character stream, width and option setting. Tied to the code by a seeded correspondence run through hooks (format_lines on a buffer, FormatReport accessor, CharClasses export); the property's text is re-stated independently in python and evaluated on the implementation's reports.",
    note="Trusted: Coq kernel; hand-written model; the (kind,char) stream is the implementation's CharClasses output (C03 covers classification); rendering of the report (format_report_formatter) not covered here; deviations of the code from the plain-English property that the proof exposed are listed as _gap lemmas in coq/C07/Props.v and DESIGN.md."),
+ "C08": dict(cat="proof", ref="DESIGN.md §5 C08",
+   text="Coq theorems (50) over a model of newline_style.rs, rustc's newline normalisation, the trailing-newline cut, push_vertical_spaces, Indent::{to_string, from_width, block_unindent}, remove_trailing_white_spaces and skip_empty_lines: Windows output has every LF after CR and conversion is idempotent and changes only terminators; exact class (CR CR LF) on which the Unix conversion fails; exact characterisation of Auto detection (and that it never sees a CRLF file as such); one final newline under an explicit guard; clamp bounds and idempotence for lower <= upper; indent shape; fast path = slow path. Tied to the code by a seeded correspondence run through hooks; each clause also judged on the implementation's answers, and the discipline is checked on the emitted text of pool programs (final terminator, no leading blank line, terminators follow newline_style, blank-line runs between sibling items/statements and between list elements).",
+   note="Partial for the clauses that concern the whole formatter (that every blank-line run and every indent goes through these functions): decided per run by the byte scan, not by a theorem; the indentation clause is proved for Indent::to_string only and not scanned end to end. Known finding classes: AutoOnCRLF, HasCRCRLF, LowerBoundAboveUpper, forced group separators (15 pool files)."),
  "C10": dict(cat="proof", ref="DESIGN.md §5 C10",
    text="Coq theorems (21) over a rose-tree model of rustfmt's UseTree pipeline (normalize, flatten, merge, merge_rest, merge_use_trees_inner, nest_trailing_self, granularity regrouping, group_imports, run segmentation): the set of denoted imports (path, alias, visibility class, attributes) is preserved by every step and by the whole pipeline for all five granularities and every group/reorder setting, outside explicit decidable bad classes, each of which has a refutation witness; never merges across visibility/attributes/comments; grouping is a permutation; runs never cross a non-import item. For every input, unbounded depth. Tied to the code by a seeded correspondence run (regrouped trees and written groups compared structurally) through hook verif_hooks::imports, and end to end: the emitted text is parsed again and its leaves compared with the input's.",
    note="Trusted: Coq kernel; hand-written model; the denotation `leaves` as the meaning of 'what is imported'; slice::sort modelled by a stable insertion sort; correspondence uses ASCII names and style edition <= 2021 for the ordering (2024 ordering only end to end). Known finding classes: DupAcrossVisibility, DupAcrossAttrs, NestedEmptyList, AliasClash, CommentedEmptyNestedList (all genuine, text-changing, not repaired)."),
